@@ -36,7 +36,12 @@
 (*  - a NUL ends the line for the tokenizer (C string), the bytes between  *)
 (*    the NUL and the LF are ignored;                                      *)
 (*  - the command is the FIRST CHARACTER of the first word;                *)
-(*  - words after the ARGV-th are ignored.                                 *)
+(*  - words after the ARGV-th are ignored;                                 *)
+(*  - argv[] is a local, uninitialised array that lives for one call of    *)
+(*    iauth_read() (= one read() chunk); several handlers read argv[1]     *)
+(*    without looking at argc (parse_ident, parse_hostname, parse_nick,    *)
+(*    parse_password): they rely on the argv[argc] = NULL store of the     *)
+(*    line being dispatched (ArgvTok, OptSlot below).                      *)
 (***************************************************************************)
 EXTENDS Integers, Sequences, FiniteSets, TLC
 
@@ -184,16 +189,55 @@ BTokenize(line) ==
     IN [id |-> st.id, big |-> st.big, argc |-> Len(t.argv), slots |-> BSlots(Len(t.argv)),
         argv |-> [k \in 1..Len(t.argv) |-> BCStrAt(t.m, t.argv[k])]]
 
-\* while ((line = evbuffer_readln(...)) != NULL) { if (len == 0) continue; ... if (argc == 0) continue; dispatch }
-RECURSIVE BDrain(_, _, _)
-BDrain(b, acc, slots) ==
+\* ---- the argv[] array itself (char *argv[16], a local of iauth_read()) -----------------------------------------
+\* What a slot holds: "uninit" (never written in this call), "ptr" (into the line being handled), "null",
+\* "stale" (into a line that has been free()d).  Handlers that take an optional parameter read argv[1] whatever
+\* argc is; the tokenizer's closing store "if (argc < ARRAY_LENGTH(argv)) argv[argc] = NULL" is what makes them
+\* see NULL for an absent parameter.
+\* Bug "argvstale": the array starts zeroed, the closing store is gone, and the slots a line used are reset
+\* only at the bottom of the loop - which the "continue" of the unknown-id path never reaches.
+ArgvFresh == [k \in 0..(ARGV - 1) |-> IF "argvstale" \in Bug THEN "null" ELSE "uninit"]
+\* after the tokenizer loop and the closing store
+ArgvTok(arr, argc) ==
+    [k \in 0..(ARGV - 1) |-> IF k < argc THEN "ptr"
+                             ELSE IF k = argc /\ "argvstale" \notin Bug THEN "null"
+                             ELSE arr[k]]
+\* free(line) (cleared: the bottom-of-loop reset of Bug "argvstale" ran)
+ArgvFreed(arr, cleared) ==
+    [k \in 0..(ARGV - 1) |-> IF arr[k] = "ptr" THEN (IF cleared THEN "null" ELSE "stale") ELSE arr[k]]
+\* the first absent parameter as a handler sees it ("none": the line fills the array, no such slot)
+OptSlot(arr, argc) == IF argc < ARGV THEN arr[argc] ELSE "none"
+
+\* "if (id == -1 || argv[0][0] == 'C') req = NULL; else if (!(req = set_find(iauth_reqs, &id))) continue;"
+\* live = ids with a request.  (Defined before Class, which repeats it as class "noreq".)
+Dispatched(id, argv, live) == id = -1 \/ (argv[1] # <<>> /\ argv[1][1] = 67) \/ id \in live
+
+\* while ((line = evbuffer_readln(...)) != NULL) { if (len == 0) continue; ... if (argc == 0) continue;
+\*        if (unknown id) continue; dispatch; free(line); }
+\* acc: lines with a command (argc > 0), slots: argv[] slots stored to, arr: argv[], opts: what dispatched lines
+\* found in the slot of their first absent parameter
+RECURSIVE BDrainA(_, _, _, _, _, _)
+BDrainA(b, acc, slots, arr, opts, live) ==
     LET r == BReadLn(b) IN
-    IF ~r.ok THEN [buf |-> b, dl |-> acc, slots |-> slots]
-    ELSE IF r.line = <<>> THEN (IF "emptybreak" \in Bug THEN [buf |-> r.rest, dl |-> acc, slots |-> slots]
-                                ELSE BDrain(r.rest, acc, slots))
-    ELSE LET t == BTokenize(r.line) IN
-         IF t.argc = 0 THEN BDrain(r.rest, acc, slots \cup t.slots)
-         ELSE BDrain(r.rest, Append(acc, [id |-> t.id, argv |-> t.argv]), slots \cup t.slots)
+    IF ~r.ok THEN [buf |-> b, dl |-> acc, slots |-> slots, opts |-> opts]
+    ELSE IF r.line = <<>> THEN (IF "emptybreak" \in Bug THEN [buf |-> r.rest, dl |-> acc, slots |-> slots, opts |-> opts]
+                                ELSE BDrainA(r.rest, acc, slots, arr, opts, live))
+    ELSE LET t == BTokenize(r.line)
+             a1 == ArgvTok(arr, t.argc)
+         IN
+         IF t.argc = 0 THEN BDrainA(r.rest, acc, slots \cup t.slots, ArgvFreed(a1, FALSE), opts, live)
+         ELSE LET disp == Dispatched(t.id, t.argv, live) IN
+              BDrainA(r.rest, Append(acc, [id |-> t.id, argv |-> t.argv]), slots \cup t.slots,
+                      ArgvFreed(a1, disp /\ "argvstale" \in Bug),
+                      IF disp THEN opts \cup {OptSlot(a1, t.argc)} ELSE opts, live)
+
+\* one call of iauth_read(): a fresh argv[]
+BDrainL(b, acc, slots, opts, live) == BDrainA(b, acc, slots, ArgvFresh, opts, live)
+\* the lines only (trace specification)
+BDrain(b, acc, slots) == BDrainL(b, acc, slots, {}, {})
+
+\* read(2) size of iauth_read(): evbuffer_read(iauth_in, fd, 4096)
+ReadSize == 4096
 
 -----------------------------------------------------------------------------
 (* The dispatcher's view of a delivered line (shared with the trace          *)
